@@ -6,6 +6,7 @@ spec:      spec/Changelog.tla (shared with C15): the five-state line parser of p
               GenLeadBlank* (GenHeader (GenChange | GenBlankInBlock)* GenTrailer GenBlankBetween*)+
            running in lock-step with the parser.
            spec/TraceChangelog.tla: trace validation (shared with C15).
+           spec/ChangelogVersions.tla (C04 only; uses the dpkg reference of spec/DpkgVersion.tla): see "versions" below.
 model checking (Mode "text", Budget 0): every well-formed text of <= 2 blocks, <= 3 body lines per block,
            <= 2 leading and <= 2 separating blank lines (thorough: also 3 blocks with <= 1 separating blank line): NoWarning, RoundTrip
            (Format(Parse(t)) = t), BlocksAsWritten (per block: header, change lines, trailer, trailing
@@ -45,6 +46,21 @@ histories: formatting is part of the history (Mode "hist", shared with C15): on 
            strictly without warning to blocks that expose the same fields as the edited object.  Recorded
            formatting histories (up to 12 random calls, formatted after some of them only) on well-formed
            changelogs are validated by TLC; there `output = Format(current document)` is a verdict.
+versions:  spec/ChangelogVersions.tla (round 7): WHICH written version a block exposes.  Changelog.tla keeps the version of a
+           header as an opaque token; what the handed-out value ANSWERS for another written version is modelled here: a
+           changelog of <= 3 blocks whose versions come from one family of near-equal versions pre.run.post (non-digit runs
+           that are proper prefixes of one another: '~b' / '~beta', '+d' / '+dfsg', '~' / '~~', '' / '.'; run in the
+           upstream middle, at its end, in the revision, behind an epoch; second spellings of the same numbers: 2.00, 0:9,
+           01:, -00).  Equality is the dpkg reference of DpkgVersion.tla (DpkgCmp = 0); invariants Identify (a block exposes
+           another written version iff both have the same canonical form), PlainDistinct (plain spellings: identity of the
+           written strings decides), WrittenFound (every written version is found in the FIRST block written with it);
+           negative control Bug = "prefixRuns" (a run that is a prefix of the other compares equal -- the round-7 seeded
+           change M) -> Identify.  Binding: every CASE (quick: all 400 two-block ones, every 4th of the 4000 three-block
+           ones) is written into an enumerated well-formed text with as many blocks (ordinary C04 verdict with TLC's
+           structure on top; no such text in the bounded configuration: a drawn sentence of the grammar, strict + silent +
+           round trip), all input forms in turn, and the real object is asked what TLC answered: block.version ==
+           Version(k) / reversed / != for every version k of the family, changelog[k] and changelog[Version(k)] (the block
+           TLC names, by identity; TLC says "none": any exception, never a block), Version(k) in versions, the versions list.
 add_change: where add_change inserts its line is not part of the statement: TLC hands out one reference
            per insertion position and the real output must equal one of them (today's position first; another
            one is specification drift only -- quiet-expected mutant c04-add-change-appends); the added line
@@ -70,6 +86,7 @@ api:       entry point / argument                          | exercised as
            strict / allow_empty_author / max_blocks / encoding  | strict=True judged; the others in unjudged earlier parses of a used object
            str() / bytes() / write_to_open_file / str(block)    | judged (round trip, histories); write_to_open_file also with a failing file object (unjudged step)
            block attributes, other_pairs, changes(), versions   | judged (as written; in-place edits in histories)
+           block.version ==/!= Version(k), changelog[str / Version] | judged (ChangelogVersions: near-equal versions in one changelog); changelog[int] = iteration
            new_block / add_change / set_* / add_trailing_line   | histories (FormatIsCurrent)
 forms:     the text arrives in every form the constructor documents ("str, list of str, or file-like ... an
            iterator of lines such as a filehandle"; the type comment adds bytes and iterables of bytes
@@ -117,7 +134,7 @@ import changelog_faults as cf
 
 MANIFEST = dict(
     technique="TLA+ spec Changelog (five-state parser automaton with incremental outputs + formatter as inverse operator + deb-changelog(5) generator automaton in lock-step) model-checked by TLC over all bounded well-formed texts; every TLC case replayed with grammar-driven concretizations into Changelog(text, strict=True); prefix-closure traces of random well-formed changelogs validated by TLC (TraceChangelog) on independently classified lines",
-    text="TLC enumerates every well-formed changelog of up to 3 blocks with up to 3 body lines each (change lines and blank lines in any order), up to 2 leading and up to 2 separating blank lines, runs the parser automaton in lock-step with the generator and checks in every accepting state that no branch warned, that formatting the parsed document yields the consumed text and that every block holds exactly the header, change lines, trailer and trailing lines the generator wrote, in file order. Each enumerated text carries the block structure computed by the specification and is replayed k times with generated packages, versions (epochs, hyphens, tildes), 1-3 distributions with dots and hyphens, urgency with and without comment, 0-2 extra key=value pairs, change text with non-ASCII, '#', ':', tabs and trailer look-alikes, trailers with and without weekday, 1- and 2-digit day and hour, arbitrary zones, quoted / bracketed / empty names and mails: strict parsing under warnings-as-errors must return, str() must reproduce the text byte for byte and every block attribute must equal what was written. Formatting is part of the history: TLC enumerates short histories of formatting calls, attribute assignments on any block, in-place container edits, new_block and add_change on two-block changelogs and hands out the reference text of the current document for every formatting call; the real object must return exactly that text (after having been formatted before and between the edits) and it must parse back to the same fields. In the other direction random well-formed changelogs of up to 60 lines are parsed prefix by prefix, lines are classified by an independent classifier and TLC replays the automaton on the observed counts, flags and interned block contents.",
+    text="TLC enumerates every well-formed changelog of up to 3 blocks with up to 3 body lines each (change lines and blank lines in any order), up to 2 leading and up to 2 separating blank lines, runs the parser automaton in lock-step with the generator and checks in every accepting state that no branch warned, that formatting the parsed document yields the consumed text and that every block holds exactly the header, change lines, trailer and trailing lines the generator wrote, in file order. Each enumerated text carries the block structure computed by the specification and is replayed k times with generated packages, versions (epochs, hyphens, tildes), 1-3 distributions with dots and hyphens, urgency with and without comment, 0-2 extra key=value pairs, change text with non-ASCII, '#', ':', tabs and trailer look-alikes, trailers with and without weekday, 1- and 2-digit day and hour, arbitrary zones, quoted / bracketed / empty names and mails: strict parsing under warnings-as-errors must return, str() must reproduce the text byte for byte and every block attribute must equal what was written. Formatting is part of the history: TLC enumerates short histories of formatting calls, attribute assignments on any block, in-place container edits, new_block and add_change on two-block changelogs and hands out the reference text of the current document for every formatting call; the real object must return exactly that text (after having been formatted before and between the edits) and it must parse back to the same fields. Which written version a block exposes is modelled separately (ChangelogVersions): TLC enumerates every changelog of up to 3 blocks whose versions come from one family of near-equal versions (non-digit runs that are prefixes of one another in four positions, second spellings of the same numbers), decides with the dpkg reference comparison which block answers to which version and which block a look-up finds, and the real object - parsed from an enumerated well-formed text carrying those versions - must answer block.version == Version(k), changelog[k] and changelog[Version(k)] the same way for every version k of the family. In the other direction random well-formed changelogs of up to 60 lines are parsed prefix by prefix, lines are classified by an independent classifier and TLC replays the automaton on the observed counts, flags and interned block contents.",
     note="Small scope for the exhaustive part (<= 3 blocks x <= 3 body lines, formatting histories of <= 4 calls on two-block changelogs); payload characters are sampled (k concretizations per case, seeded; every 150th case size-stressed: long names/versions/lines, epochs >= 2**31, 100 pairs, runs of 100-1000 lines, 100-1000 blocks). Lines never contain a str.splitlines() boundary character (DESIGN D1). Trusted: TLC, the concretizer (it also states what it wrote), the independent classifier, the projections. Faults of caller-supplied inputs (iterator raises at line k; input ends early at a line end, inside a line, inside a multi-byte character) are steps of the histories that are never judged themselves; the parses after them are (Mode reuse: rs.carry x rs.f2 x rs.pf enumerated by TLC). Spec-level negative controls (among them the two formatter caches of the round-2 seeded changes, the sticky per-object flag and the per-process decoder tail) and corrupted control traces are required to fail in every run.",
     design="5 (C04)")
 
@@ -239,6 +256,48 @@ def replay_reuse(ctx, rng, cases, every):
     return n
 
 
+def versions_neg_control(ctx):
+    bug, want = cc.VERSIONS_NEG
+    r = ctx.tlc("ChangelogVersions", cc.versions_cfg(2, bug=bug, emit=False), count=False, workers=1, want_tags=set(), java_opts=cc.jopts(ctx))
+    if r.violated not in want:
+        raise core.MachineryError("spec-level negative control Bug=%s: expected one of %s violated, TLC reports %r" % (bug, sorted(want), r.violated))
+    return r.violated
+
+
+def replay_versions(ctx, rng, vcases, cases, quick):
+    """ChangelogVersions.tla: every changelog of 2 (quick: every 4th of 3) blocks whose versions come from one family of
+    near-equal versions is written into an enumerated well-formed text with as many blocks (its structure from TLC:
+    the ordinary C04 verdict on top) -- or, when the bounded configuration has no text with that many blocks, into a
+    drawn sentence of the same grammar -- and asked what TLC answered: which versions every block exposes, which
+    block is found under every version of the family.  -> number replayed"""
+    by_blocks = {}
+    for c in cases:
+        by_blocks.setdefault(len(c["doc"]["bl"]), []).append(c)
+    n = 0
+    for vi, v in enumerate(vcases):
+        nb = len(v["ws"])
+        if quick and nb > 2 and vi % 4 != 1:
+            continue
+        pool = by_blocks.get(nb)
+        if pool:
+            tc = pool[(vi * 7 + n) % len(pool)]
+            classes, struct = tc["t"], tc["doc"]
+        else:
+            classes, struct = cc.blocks_classes(rng, nb), None
+        lines, contents = cc.conc_text(rng, classes, canonical=(n % 5 == 0), empty_blank=True, haz=False)
+        form = cc.FORMS[n % len(cc.FORMS)]
+        msg = cc.c04_versions_check(lines, contents, struct, v, form=form)
+        ctx.case_seen(("versions", v["fam"], tuple(v["ws"])), True)
+        n += 1
+        if msg:
+            lines, contents = cc.write_versions(lines, contents, v["ws"])
+            ctx.violation({"kind": "versions", "classes": classes, "lines": lines, "contents": contents, "struct": struct, "form": form,
+                           "versions": v}, msg)
+            if len(ctx.violations) >= 5:
+                break
+    return n
+
+
 def run(ctx):
     quick = ctx.tier == "quick"
     rng = ctx.rng
@@ -280,11 +339,15 @@ def run(ctx):
         f_hneg = [ex.submit(hist_neg_control, ctx, bug, want) for bug, want in cc.HIST_NEG]
         f_reuse = ex.submit(cc.reuse_controls, ctx, hold=not quick)
         f_rcases = ex.submit(cc.reuse_cases, ctx)
+        f_vers = ex.submit(ctx.tlc_must_hold, "ChangelogVersions", cc.versions_cfg(3), workers=2, want_tags={"CASE", "FAM"}, java_opts=cc.jopts(ctx))
+        f_vneg = ex.submit(versions_neg_control, ctx)
         r = f_bnd.result()
         r_hist = [f.result() for f in f_hist]
         ctx.extra["spec_negative_controls"] = {bug: f.result() for (bug, _), f in zip(NEG_CONTROLS + cc.HIST_NEG, f_neg + f_hneg)}
         ctx.extra["spec_negative_controls"].update(f_reuse.result())
         rcases, rstates = f_rcases.result()
+        r_vers = f_vers.result()
+        ctx.extra["spec_negative_controls"][cc.VERSIONS_NEG[0]] = f_vneg.result()
     ctx.tlc_runs.sort(key=lambda x: (-x["distinct"], str(x["violated"])))
     cases = [c for c in r.printed.get("CASE", []) if isinstance(c, dict)]
     if f_bnd2 is not None:          # thorough: 3 blocks with <= 1 separating blank line + 2 blocks with <= 2
@@ -327,6 +390,18 @@ def run(ctx):
         ctx.violation({"kind": "alive", "note": m}, m)
     ctx.extra["cases_replayed"] = n
     ctx.extra["size_stressed_concretizations"] = nstress
+
+    # (a3) which written version the blocks expose: near-equal versions in one changelog
+    vcases = cc.version_cases(r_vers)
+    if not vcases:
+        raise core.MachineryError("ChangelogVersions printed no CASE line")
+    nv = replay_versions(ctx, rng, vcases, cases, quick)
+    ctx.extra["version_identity"] = {"states": r_vers.distinct, "cases": len(vcases), "replayed": nv,
+                                     "families": sorted({c["keys"][0] + " .. " + c["keys"][-1] for c in vcases})}
+    vs = vcases[len(vcases) // 2]
+    ctx.sample("versions written %r: exposes %s, found under %s -> block %s" % (
+        vs["ws"], json.dumps(vs["eq"], separators=(",", ":")), json.dumps(vs["keys"]), json.dumps(vs["lk"])))
+    n += nv
 
     # (a'') a parse depends on nothing but its own input: used objects, faults of caller-supplied inputs before
     rcases.sort(key=lambda c: (len(c["t"]), c["t"], c["carry"], c["f2"], c["pf"]))
@@ -411,6 +486,8 @@ def replay(ctx, case):
                 c["pairs"] = [tuple(p) for p in c["pairs"]]
         return cc.c04_check(case["lines"], contents, case["struct"], form=case.get("form", "str"), mutate=case.get("mutate"),
                             fault=case.get("fault"), reuse=case.get("reuse"))
+    if case["kind"] == "versions":
+        return cc.c04_versions_check(case["lines"], cc.norm_contents(case["contents"]), case["struct"], case["versions"], form=case.get("form", "str"))
     if case["kind"] == "hist":
         return cc.run_hist(dict(case, contents=cc.norm_contents(case["contents"]), tail_contents=cc.norm_contents(case.get("tail_contents", []))), c04=True)
     if case["kind"] == "alive":
